@@ -5,6 +5,8 @@ import os
 import numpy as np
 from hypothesis import strategies as st
 
+from ..core import sampled_from  # noqa: E402
+
 from .. import build, meshgen, writers
 from ..core import Failure
 
@@ -59,11 +61,11 @@ def shard_seed_group(tier, k, n):
 
 @st.composite
 def _source(draw, big):
-    kind = draw(st.sampled_from(["topology", "topology", "topology-centres", "vertices-xyz", "mpas"]))
+    kind = draw(sampled_from(["topology", "topology", "topology-centres", "vertices-xyz", "mpas"]))
     if kind in ("mpas", "topology-centres"):
         mesh = draw(meshgen.voronoi_mesh(6, 14 if big else 10, renumber=False))
     else:
-        fam = draw(st.sampled_from(["hull", "hull", "latlon", "solid"]))
+        fam = draw(sampled_from(["hull", "hull", "latlon", "solid"]))
         if fam == "hull":
             mesh = draw(meshgen.hull_mesh(6, 18 if big else 10, partial=True))
         elif fam == "latlon":
@@ -71,32 +73,32 @@ def _source(draw, big):
         else:
             mesh = draw(meshgen.solid_mesh_st())
         mesh.pop("centers", None)
-    return {"kind": kind, "mesh": mesh, "radius": draw(st.sampled_from([1.0, 1.0, 2.5, 6371.0]))}
+    return {"kind": kind, "mesh": mesh, "radius": draw(sampled_from([1.0, 1.0, 2.5, 6371.0]))}
 
 
 @st.composite
 def _op(draw, n_grids):
-    op = draw(st.sampled_from(OPS))
+    op = draw(sampled_from(OPS))
     d = {"op": op, "g": draw(st.integers(0, n_grids - 1))}
     if op == "attr":
-        d["name"] = draw(st.sampled_from(ATTRS))
+        d["name"] = draw(sampled_from(ATTRS))
     elif op in ("areas", "total_area"):
-        d["rule"] = draw(st.sampled_from(RULES))
+        d["rule"] = draw(sampled_from(RULES))
         d["latlon"] = draw(st.booleans())
     elif op == "to_xarray":
-        d["fmt"] = draw(st.sampled_from(["ugrid", "ugrid", "exodus", "scrip"]))
+        d["fmt"] = draw(sampled_from(["ugrid", "ugrid", "exodus", "scrip"]))
     elif op in ("gdf", "poly", "line"):
-        d["periodic"] = draw(st.sampled_from(["exclude", "split", "ignore"]))
-        d["engine"] = draw(st.sampled_from(["spatialpandas", "geopandas"]))
-        d["proj"] = draw(st.sampled_from([None, None, ["robinson", 0.0], ["mollweide", 60.0]]))
+        d["periodic"] = draw(sampled_from(["exclude", "split", "ignore"]))
+        d["engine"] = draw(sampled_from(["spatialpandas", "geopandas"]))
+        d["proj"] = draw(sampled_from([None, None, ["robinson", 0.0], ["mollweide", 60.0]]))
         if d["periodic"] == "split":
             d["proj"] = None
         d["cache"] = draw(st.booleans())
-        d["override"] = draw(st.sampled_from([False, False, True]))
+        d["override"] = draw(sampled_from([False, False, True]))
     elif op == "tree":
-        d["cfg"] = draw(st.sampled_from(TREE_CFG))
-        d["kind"] = draw(st.sampled_from(["nodes", "face centers", "edge centers"]))
-        d["reconstruct"] = draw(st.sampled_from([False, False, True]))
+        d["cfg"] = draw(sampled_from(TREE_CFG))
+        d["kind"] = draw(sampled_from(["nodes", "face centers", "edge centers"]))
+        d["reconstruct"] = draw(sampled_from([False, False, True]))
     elif op == "chunk":
         d["n"] = draw(st.integers(1, 4))
     elif op == "isel":
@@ -122,21 +124,21 @@ def _case(draw, tier):
         if variable and draw(st.integers(0, 2)) == 0:
             base = dict(variable[draw(st.integers(0, len(variable) - 1))])
             if base["op"] in ("gdf", "poly", "line"):
-                field = draw(st.sampled_from(["engine", "periodic", "proj", "same"]))
+                field = draw(sampled_from(["engine", "periodic", "proj", "same"]))
                 if field == "engine":
                     base["engine"] = "geopandas" if base["engine"] == "spatialpandas" else "spatialpandas"
                 elif field == "periodic":
-                    base["periodic"] = draw(st.sampled_from([p for p in ("exclude", "ignore") if p != base["periodic"]] or ["exclude"]))
+                    base["periodic"] = draw(sampled_from([p for p in ("exclude", "ignore") if p != base["periodic"]] or ["exclude"]))
                 elif field == "proj" and base["periodic"] != "split":
                     base["proj"] = None if base["proj"] else ["robinson", 0.0]
                 base["cache"], base["override"] = True, False
             elif base["op"] == "tree":
-                base["cfg"] = draw(st.sampled_from(TREE_CFG))
+                base["cfg"] = draw(sampled_from(TREE_CFG))
                 base["reconstruct"] = False
             elif base["op"] in ("areas", "total_area"):
-                base["rule"] = draw(st.sampled_from(RULES))
+                base["rule"] = draw(sampled_from(RULES))
             else:
-                base["fmt"] = draw(st.sampled_from(["ugrid", "exodus", "scrip"]))
+                base["fmt"] = draw(sampled_from(["ugrid", "exodus", "scrip"]))
             out.append(base)
     return {"sources": srcs, "ops": out[:20]}
 
